@@ -63,7 +63,12 @@ def harnesses(ctx, tier):
                 hs.append(Harness(name="H3_" + fn, src="c04/readers.c", defines=["-DVF_READER=" + fn, "-DVF_SIZE=%d" % sz, "-DVF_SIGNED=%d" % signed, "-DVF_BE=%d" % be],
                                   unwind=6, timeout=300, desc="%s on a symbolic 2-block layout" % fn,
                                   bounds="2 blocks x <= 4 bytes, base 0..3, gap 0..2, offset any size_t", functions=[fn]))
+    for m, what in ((1, "OP_ITER_CONDITION"), (2, "OP_ITER_END")):
+        hs.append(Harness(name="H4_" + what, src="c04/iter.c", defines=["-DVF_MODE=%d" % m], unwind=12, timeout=300, unwind_funcs={"yr_arena_ptr_to_ref": 3},
+                          desc="%s through the real VM vs the documented quantifier semantics" % what,
+                          bounds="all quantifier values incl. undefined (all) and 0 (none); counters < 2^40", functions=EXEC_FUNCS, stubs=EXEC_STUBS))
     return hs
+
 
 
 LEVEL_TEXT = ("Bounded model checking of the real interpreter: for each opcode the solver covers every 64-bit operand value "
